@@ -443,7 +443,7 @@ func mutate(t *rapid.T, s string) (string, string) {
 		return s, "none"
 	}
 	i := rapid.IntRange(0, len(toks)-1).Draw(t, "mut-at")
-	ins := rapid.SampledFrom([]string{"C", "R", "1", "b", "#", "_", "/", "[", "]", "{", "}", "=", ",", ";", " ", "m", "7", "x", "\n", "[1]", "{a=b}", "１", "٢", "৩", "²"}).Draw(t, "mut-ins") // the last four: digits of other scripts are symbol characters, not numbers
+	ins := rapid.SampledFrom([]string{"C", "R", "1", "b", "#", "_", "/", "[", "]", "{", "}", "=", ",", ";", " ", "m", "7", "x", "\n", "[1]", "{a=b}", "１", "٢", "৩", "²", "\x00", "\x00m"}).Draw(t, "mut-ins") // the last four: digits of other scripts are symbol characters, not numbers
 	kind := rapid.SampledFrom([]string{"delete", "insert", "swap", "duplicate", "replace", "truncate"}).Draw(t, "mut-kind")
 	switch kind {
 	case "delete":
